@@ -243,18 +243,26 @@ F("CHAIN-class-negative-int-from-prose-as-float", ALLP,
   ["Chain.Def"], obs=["other"], when={"k": "class"}, slot=[["int", "OptInt", "none"], "own", ANY, ANY, "intNeg"])
 
 # ------------------------------------------------------------------------------------------------ wrapping (C18)
-NARROW = [str(x) for x in range(40, 100, 8)] + ["72"]
-F("NUMPYDOC-wrapped-continuation-not-indented", ALLP,
-  "numpydoc with word wrap at a narrow DOCTRANS_LINE_LENGTH: continuation lines of wrapped prose lose their indentation, so the "
-  "scanner reads them as new entries (defaults, prose, names and the return entry are mis-attributed)",
-  ["ConfigTransparent", "RetKept.def", "RetKept.stop", "RetKept.base", "RetKept.ann", "RetKept.present", "RetKept.typ", "NoExtraNames",
-   "DefaultKept", "DefaultFill", "ProseKept.base", "ProseKept.stop", "ProseKept.ann", "NamePresent", "NamesOrder", "SummaryKept",
-   "TypKept", "NeverRaises"],
-  when={"k": "numpydoc", "wrap": True, "ll": NARROW})
+NARROW = [str(x) for x in range(30, 132)]
+F("NUMPYDOC-wrapped-return-prose", ALLP,
+  "numpydoc with word wrap: the parser reads only the first line of the wrapped prose of "
+  "the return entry",
+  ["RetKept.base", "RetKept.stop", "RetKept.ann", "RetKept.def", "ConfigTransparent"], when={"k": "numpydoc", "wrap": True, "retwrap": True},
+  ret=[True, ANY, "own", ANY, ANY, ANY])
+_BRK = ("word wrap breaks the line between `Defaults` and `to`: extract_default only knows `defaults to ` / `defaults to\\n`, so "
+        "the default is no longer found and the sentence stays in the prose - ")
+F("WRAP-break-inside-announcement-numpydoc-param", ALLP, _BRK + "numpydoc parameters",
+  ["DefaultKept", "ProseKept.ann", "ProseKept.stop", "ConfigTransparent"],
+  obs=["absent", "diff", True, ["dann", "def"], ["dann", "def", "typ"], ["dann", "def", "ret.def"], ["dann", "def", "ret.def", "typ"]],
+  when={"k": "numpydoc", "wrap": True, "brk": True, "step": "parse"})
+F("WRAP-break-inside-announcement-rest-return", ALLP, _BRK + "ReST return entry",
+  ["RetKept.def", "RetKept.ann", "RetKept.stop", "ConfigTransparent"],
+  obs=["absent", "diff", True, ["ret.dann", "ret.def"]],
+  when={"k": "rest", "wrap": True, "brk": True, "step": "parse"})
 F("ARGPARSE-wrapped-return-prose", ALLP,
-  "argparse with word wrap at a narrow DOCTRANS_LINE_LENGTH: the `:returns:` line of the generated docstring wraps and only its "
+  "argparse with word wrap: the `:returns:` line of the generated docstring wraps and only its "
   "first line is read back as the return prose",
-  ["RetKept.base", "RetKept.stop", "RetKept.ann", "ConfigTransparent"], when={"k": "argparse", "wrap": True, "ll": NARROW},
+  ["RetKept.base", "RetKept.stop", "RetKept.ann", "ConfigTransparent"], when={"k": "argparse", "wrap": True, "retwrap": True},
   ret=[True, ANY, "own", ANY, ANY, ANY])
 
 # ------------------------------------------------------------------------------------------------ locations (C15)
@@ -272,6 +280,7 @@ FIXED += [
 ]
 
 FIXED += [
+    "fixed: property=C18 2e569ff numpydoc: wrapped prose lost the indentation of its continuation lines; the parser read them as new entries",
     "fixed: property=C10 1f22a3d sync re-emitted and rewrote the file holding the source of truth (the truth was conformed to itself)",
     "fixed: property=C09 2b090a1 sync raised TypeError when a function target file had to be created (_default_options not passed on)",
     "fixed: property=C09 3a4c0f7 sync raised when only two of the three kinds were named on the command line",
